@@ -62,19 +62,19 @@ def history_specs(ctx, n_hist, n_steps):
 
 
 def generate(specs, nproc=14):
-    nshards = max(1, min(nproc, len(specs) // 8 or 1))
+    nshards = max(1, min(nproc, len(specs) // 8 or 1), len(specs) // 160)  # <= ~160 histories (~20 MB) per TLC run
     shards = [(k, specs[k::nshards]) for k in range(nshards)]
     if nshards == 1:
         return [_shard(shards[0])]
-    with mp.get_context('fork').Pool(nshards) as pool:
+    with mp.get_context('fork').Pool(min(nproc, nshards)) as pool:
         return pool.map(_shard, shards)
 
 
 def validate_all(ctx, results):
     def one(bs):
         b, s = bs
-        return b, s, ctx.validate(b, module='TokenTrace')
-    with cf.ThreadPoolExecutor(max_workers=min(7, len(results))) as ex:
+        return b, s, ctx.validate(b, module='TokenTrace', heap='3g')
+    with cf.ThreadPoolExecutor(max_workers=min(6, len(results))) as ex:
         return list(ex.map(one, results))
 
 
@@ -96,7 +96,7 @@ def collect(ctx, validated):
                 sc = scripts[tid]
                 st = sc['script'][step - 1]
                 ctx.violation(clause, klass, {
-                    'driver': sc['driver'], 'variant': sc['variant'], 'seed': sc['seed'], 'nsteps': sc['nsteps'],
+                    'driver': sc['driver'], 'variant': sc['variant'], 'hseed': sc['seed'], 'nsteps': sc['nsteps'],
                     'failing_step': step, 'event': {k: ev[k] for k in ev if k not in ('post', 'tk')},
                     'plan': st['plan'], 'pre_src': st['pre_src'], 'post_src': st['post_src'],
                 }, detail=json.dumps({k: ev[k] for k in ('op', 'kind', 'field', 'codeform') if k in ev}))
@@ -108,8 +108,8 @@ def collect(ctx, validated):
                 tk = ev['tk']
                 shape = ('insert' if ev['form'] == 'slice' and ev['start'] == ev['stop'] else
                          'delete' if not ev['srcs'] else 'replace')
-                ctx.distinct.add((ev['kind'], ev['field'], ev['form'], shape, ev['opts']['trivia'], tk['stmt'],
-                                  bool(tk['newc'])))
+                tvc = (tk['tv']['n'],) + tuple((a['k'], a['b'], a['w'], a['sg'], a['hasn']) for a in tk['tv']['a'])
+                ctx.distinct.add((ev['kind'], ev['field'], ev['form'], shape, tvc, tk['stmt'], bool(tk['newc'])))
         for tr in batch['traces'][:1]:
             for k, ev in enumerate(tr['steps']):
                 if _in_domain(ev):
@@ -140,7 +140,7 @@ def run(ctx):
     ctx.model('TokenMC', 'TokenMC' if ctx.quick else 'TokenMC_thorough',
               required=('DoDelete', 'DoReplace', 'DoInsert', 'DropFarComment', 'DropNearComment', 'DupComment',
                         'DropLineComment', 'ReindentFarLine', 'SwapFarStatements', 'DropFarBlank', 'DropNearBlank',
-                        'GlueComment'))
+                        'GlueComment'), heap='3g')
     n_hist, n_steps = (300, 8) if ctx.quick else (3600, 10)
     specs = history_specs(ctx, n_hist, n_steps)
     res = generate(specs)
@@ -150,20 +150,147 @@ def run(ctx):
                          'BlankLines'])
 
 
+class _FixedChoice:
+    """rng whose choice() prefers the recorded entry point (single-step replays)."""
+
+    def __init__(self, rng, prefer):
+        self._rng, self._prefer = rng, prefer
+
+    def choice(self, seq):
+        return self._prefer if self._prefer in seq else self._rng.choice(seq)
+
+    def __getattr__(self, name):
+        return getattr(self._rng, name)
+
+
+def _tuplify(v):
+    return tuple(_tuplify(x) for x in v) if isinstance(v, list) else v
+
+
+def single_step_batch(pre_src: str, pl: dict):
+    """Re-execute one recorded request on a tree freshly built from the recorded pre source -> (batch, scripts)."""
+    import ast
+    from harness import edits, c04_tokens
+    from harness.edits import FST
+    rec = edits.Recorder()
+    tt = c04_tokens.TokTables()
+    hooks = c04_tokens.make_hooks(tt)
+    plan = edits.Plan()
+    for k in ('kind', 'field', 'form', 'start', 'stop', 'idx', 'et', 'srcs', 'codeform', 'corrupt'):
+        setattr(plan, k, pl.get(k))
+    plan.path = tuple((f, i) for f, i in pl['path'])
+    plan.opts = {k: _tuplify(v) for k, v in (pl.get('opts') or {}).items()}
+    plan.view = _tuplify(pl['view']) if pl.get('view') is not None else None
+    plan.op = None
+    tree = ast.parse(pre_src)
+    node = edits.node_at(tree, plan.path)
+    plan.lo = 1 if plan.field == '_body' and edits.has_docstr(node) else 0
+    if plan.form == 'opt':
+        plan.length, plan.quant = 1, 'single'
+    else:
+        plan.quant = 'list'
+        if plan.field == '_body':
+            plan.length = len(node.body) - plan.lo
+        elif plan.field == '_all' and plan.kind == 'Compare':
+            plan.length = 1 + len(node.comparators)
+        elif plan.field == '_all':
+            plan.length = len(node.keys)
+        elif plan.field in ('_args', '_bases'):
+            plan.length = len(node.args if plan.kind == 'Call' else node.bases) + len(node.keywords)
+        else:
+            plan.length = len(getattr(node, plan.field))
+    root = FST(pre_src, 'exec')
+    init = rec.state(root)
+    rng = _FixedChoice(random.Random(0), pl.get('op'))
+    o = edits.oracle(plan, pre_src, rec.tab)
+    exc = edits.execute(plan, root, o, rng)
+    ev = edits.make_event(plan, o, exc, rec.state(root), edits.try_parse(pre_src))
+    ev['hasClean'], ev['clean'] = False, {'outcome': '', 'text': 0}
+    hooks['post'](root, plan, o, ev, pre_src)
+    script = [{'pre_src': pre_src, 'plan': plan.describe(), 'post_src': root.src,
+               'exc': None if exc is None else f'{type(exc).__name__}: {exc}'}]
+    scripts = {1: {'driver': 'c04_step', 'progs': [], 'variant': -1, 'seed': 0, 'nsteps': 1, 'script': script}}
+    return dict(rec.tab.dump(), **tt.dump(), traces=[{'id': 1, 'seed': 0, 'init': init, 'steps': [ev]}]), scripts
+
+
 def replay(ctx, path):
+    """Re-executes the recorded request on the recorded pre source against the current pfst and re-validates it."""
+    import difflib
     with open(path) as f:
         rp = json.load(f)
-    res = [_shard((0, [(1, rp['seed'], rp['variant'], rp['nsteps'])]))]
-    val = validate_all(ctx, res)
+    batch, scripts = single_step_batch(rp['pre_src'], rp['plan'])
+    val = [(batch, scripts, ctx.validate(batch, module='TokenTrace'))]
     collect(ctx, val)
-    for batch, scripts, verd in val:
+    for _, _, verd in val:
         for tid, v in verd.items():
-            print('verdict', tid, sorted(v['bad']))
-    step = rp.get('failing_step')
-    if step:
-        st = scripts[1]['script'][step - 1] if step <= len(scripts[1]['script']) else None
-        if st:
-            import difflib
-            print('--- step', step, json.dumps(st['plan'], default=str))
-            print('\n'.join(difflib.unified_diff(st['pre_src'].split('\n'), st['post_src'].split('\n'), lineterm='')))
+            print('verdict', tid, sorted(v['bad']), 'clauses evaluated:', sorted(v['seen']))
+    st = scripts[1]['script'][0]
+    print('--- request', json.dumps(st['plan'], default=str), '=>', st['exc'] or 'ok')
+    print('\n'.join(difflib.unified_diff(st['pre_src'].split('\n'), st['post_src'].split('\n'), lineterm='')))
     return ctx.finish()
+
+
+SELFTEST_SRC = '''\
+import os  # first
+# about a
+a = [
+    1,  # one
+    2,
+]
+
+# about f
+def f(x):
+    # body comment
+    y = x + 1  # inc
+    return y  # done
+
+# tail comment
+z = f(a)  # call
+'''
+
+
+def selftest(ctx):
+    """Binding demonstration (DESIGN 2.9a): an accepted trace is corrupted in one recorded field and TLC must reject it
+    naming the right clause."""
+    import copy
+    plan = {'path': [['body', 2]], 'kind': 'FunctionDef', 'field': 'body', 'form': 'one', 'start': None, 'stop': None,
+            'idx': 0, 'et': 'stmt', 'srcs': ['new = 1'], 'codeform': 'src', 'op': 'put', 'opts': {}, 'corrupt': None,
+            'view': None}
+    batch, _ = single_step_batch(SELFTEST_SRC, plan)
+    ev = batch['traces'][0]['steps'][0]
+    assert ev['outcome'] == 'ok' and ev['tk']['ok'], ev
+    ok = True
+
+    def run(name, mutate, expect):
+        nonlocal ok
+        b = copy.deepcopy(batch)
+        mutate(b, b['streams'][b['traces'][0]['steps'][0]['tk']['post'] - 1])
+        v = ctx.validate(b, module='TokenTrace')[1]
+        got = sorted({c for _, c, _ in v['bad']})
+        good = set(expect) <= set(got) if expect else not got
+        ok &= good
+        print(f'selftest {name}: failed clauses {got} expected {sorted(expect)} -> {"ok" if good else "WRONG"}')
+
+    def drop_token(text):
+        def m(b, post):
+            i = next(i for i, k in enumerate(post['k']) if b['ktab'][k - 1]['s'] == text)
+            for f in ('k', 'sl', 'el', 'fol'):
+                del post[f][i]
+        return m
+
+    def swap_lines(b, post):
+        post['ln'][0], post['ln'][1] = post['ln'][1], post['ln'][0]
+
+    def dup_comment(b, post):
+        i = next(i for i, k in enumerate(post['k']) if b['ktab'][k - 1]['s'] == '# call')
+        for f in ('k', 'sl', 'el', 'fol'):
+            post[f].insert(i, post[f][i])
+
+    run('unchanged', lambda b, post: None, [])
+    run('drop far comment token (# one)', drop_token('# one'), ['OutsideTokens.out', 'Comments.lost'])
+    run('drop comment of the container (# done)', drop_token('# done'), ['OutsideTokens.in', 'Comments.lost'])
+    run('drop code token outside the container (import)', drop_token('import'), ['OutsideTokens.out'])
+    run('swap two far lines', swap_lines, ['OutsideLines'])
+    run('duplicate a comment token (# call)', dup_comment, ['Comments.dup'])
+    print('selftest', 'passed' if ok else 'FAILED')
+    return 0 if ok else 2
